@@ -97,6 +97,7 @@ def impl_walk(spec, roots, kind="getnext", size=10, lenient=False, version="v2c"
         bulk_policy={"rows": pol.get("rows"), "cut": pol.get("cut", 0), "stop_after_eom_row": pol.get("stop", True), "deep": pol.get("deep", False), "starve": pol.get("starve"), "maxvb": pol.get("maxvb")},
         budget=budget,
         hook=hook,
+        volatile=bool(spec.get("volatile")),
     )
     client = make_client(agent, version, level)
     rec = Recorder(agent)
@@ -245,7 +246,12 @@ def below(db, roots):
     return out
 
 
-def oracle_exact(db, roots, walk, single_sorted=True, per_binding=False):
+def strip_values(walk):
+    """a trace with the values of the yielded bindings left out (volatile agents: OIDs only)"""
+    return {"events": [[e[0], [e[1][0]]] if e[0] == "yield" else e for e in walk["events"]], "outcome": walk["outcome"]}
+
+
+def oracle_exact(db, roots, walk, single_sorted=True, per_binding=False, values=True):
     """C01/C02 oracle on an implementation trace.  Returns a description or None."""
     if walk["outcome"] != ["done"]:
         return f"walk ended with {walk['outcome']}"
@@ -257,7 +263,7 @@ def oracle_exact(db, roots, walk, single_sorted=True, per_binding=False):
     for y in ys:
         if y not in dbd:
             return f"yielded {list(y)} which the agent does not hold"
-        if vals[y] != dbd[y]:
+        if values and vals[y] != dbd[y]:
             return f"value of {list(y)} differs from the agent's"
         if not any(y[: len(r)] == tuple(r) for r in roots):
             return f"yielded {list(y)} outside all roots"
